@@ -97,3 +97,26 @@ CHECKS["C05"] = dict(
                  "zero-length results are checked although nmtools cannot represent them (the property text is fixed); they are listed as a known finding"],
     min_outcomes=200,
 )
+
+CHECKS["C04"] = dict(
+    level="exploration", engine="E1", technique=E1_TECH, level_note=E1_NOTE,
+    level_text="For every source shape of the small scope and the full argument menu of each of the ~35 selecting/replicating/joining/generating "
+               "routines, the lazy view and the evaluated array are read at every index and compared (shape and element) with NumPy-definition "
+               "models (pad/resize/expand: their documented definitions); distinct element values make a copied-from-the-wrong-place element visible.",
+    units=[
+        U("select", "harness/c04a_select.cpp", weight=4),
+        U("stack", "harness/c04a_select.cpp", flags=["-DC04_STACK"]),
+        U("generate", "harness/c04b_generate.cpp", weight=2),
+        U("select_san", "harness/c04a_select.cpp", san=True, family="select", shadow=True, weight=6, tiers=["thorough"]),
+        U("generate_san", "harness/c04b_generate.cpp", san=True, family="generate", shadow=True, weight=3, tiers=["thorough"]),
+    ],
+    rule="case = (routine, source shape, arguments); non-trivial = the result differs from the source in shape or element order (generators, joins "
+         "and splits always count); distinct = distinct key",
+    bounds=dict(quick="sources S(1..4,3); reps/repeats 1..3; shifts [-2n,2n]; take lists <=3 (<=2 for dim>=3); masks <= n; pad widths 0..2 (0..1 for dim>=3); "
+                      "windows <= extent on <=2 axes; diagonal offsets [-n,n]; resize targets S(d,5) (d<=2) ; arange integer grid [-4,6]x[-4,6]x{+-1..3}; linspace halves x num 1..6",
+                thorough="sources S(1..4,4) with the full menus; ASan/UBSan shadow builds"),
+    assumptions=["a real-valued arange is rejected at compile time by the library (ARANGE_SHAPE_UNSUPPORTED), so the real grid applies to linspace only",
+                 "results NumPy would return empty (arange with no element, empty diagonal) are outside nmtools' domain and skipped",
+                 "column_stack / hstack etc. are driven in a separate translation unit because array::concatenate and view::concatenate are ambiguous under ADL when both headers are included"],
+    min_outcomes=2000,
+)
